@@ -240,6 +240,15 @@ def run(prog, rep, tier):
                     continue
                 if rv_["r"] == "agg" and rv_.get("v") == "None":
                     act = "none"
+                if rv_["r"] == "agg" and str(rv_.get("adt") or rv_.get("adtn") or "").endswith("Nexthop"):
+                    # a next hop built in place (`let self_nexthop = match self.local_addr {..}` computed up front): whose
+                    # address is it made of?
+                    rn_ = Renderer(nv, depth=12, through_names=True)
+                    fl = set()
+                    for fo_ in rv_["fields"]:
+                        fl |= set(expr_fields(rn_.operand(fo_, 12)))
+                    if "local_addr" in fl:
+                        act = "self"
                 break
         if act == "self":
             selfnh |= roles
